@@ -25,6 +25,10 @@ CHECKS = {
    text="Rows carry a hidden identity (unique int / string / MultiIndex labels; content+order on polars); after the real validate with drop_invalid_rows=True the surviving identities and values are compared with the rows on which the reference model finds every row-level constraint satisfied, in order; cases with a non-row violation must raise SchemaErrors (never return, never TypeError). The four examples of docs/source/drop_invalid_rows.md run as fixed cases.",
    note="Unique non-null index labels (documented limitation); exact coercion only (int/float/datetime retyping); SeriesSchema with a failing index schema not judged; trusts pvm/model.py.",
    ref="4/C11"),
+ "C20": dict(cat="exploration", tech="differential monitor: real validate with head/tail/sample vs real validate of the explicitly selected rows (by position)",
+   text="For generated schemas and frames with duplicate rows and repeated index labels, the outcome of the real validate(head,tail,sample,random_state) is compared (verdict, reasons, failing cells where labels identify rows) with the real validate of the frame made of the selected positions; also that the result has all rows, that a fixed random_state is deterministic, and that head=len(D) equals no option. pandas and polars.",
+   note="Sampled positions are taken from a position column sampled with the same seed by the same library; index-level failure cases compared by value.",
+   ref="4/C20"),
 }
 NOT_YET = {}
 
